@@ -2430,5 +2430,7 @@ package gomatrixserverlib
 //@ func (*stateResolverV2).authAndApplyEvents
 //@   property C09, C10
 //@   nosafety
+//@   opaque
+//@   requires r != nil
 //@   calls allowed@root provider-emptied-for-this-event: ncalls(Clear) == ncalls(allowed) + 1
 //@   loop 1: invariant ncalls(Clear) == ncalls(allowed)
